@@ -277,6 +277,16 @@ func init() {
 					Run:  func(c *fw.Ctx, i int64) { c15Run(c, kind, stringByIndex(al, i), all) },
 					Repr: func(i int64) string { return fmt.Sprintf("%s tokenizer, input %q, all 128 option sets", kind, stringByIndex(al, i)) }})
 			}
+			for _, kind := range tokKindsCustom {
+				kind := kind
+				cl := 4
+				if tier == "thorough" {
+					cl = 5
+				}
+				sp = append(sp, fw.Space{Name: kind, N: countStrings(len(customAlphabet), cl),
+					Run:  func(c *fw.Ctx, i int64) { c15Run(c, kind, stringByIndex(customAlphabet, i), all) },
+					Repr: func(i int64) string { return fmt.Sprintf("%s tokenizer, input %q, all 128 option sets", kind, stringByIndex(customAlphabet, i)) }})
+			}
 			lexLen := 3
 			if tier == "thorough" {
 				lexLen = 4
